@@ -7,6 +7,7 @@ import (
 	"fmt"
 	"os"
 	"path/filepath"
+	"regexp"
 	"sort"
 	"strings"
 
@@ -24,6 +25,8 @@ type Case struct {
 	// per-record failure); empty = only the oracles and the model decide.
 	Expect []string `json:"expect,omitempty"`
 }
+
+var longNumRe = regexp.MustCompile(`[0-9]{16,}e`)
 
 type harness struct {
 	o   *vh.Opts
@@ -67,6 +70,10 @@ func (h *harness) runCase(c Case, ds Decls, wantReject string, nontrivial bool, 
 	canon, _ := json.Marshal(c)
 	if out.Panic != "" {
 		h.sum.Fail("panic escaped NewSchema/NewTransform/Read", c, out.Panic)
+		return
+	}
+	if out.Clobbered != "" {
+		h.sum.Fail("bytes returned by Transform.Read changed after later Reads (the caller keeps them)", c, out.Clobbered)
 		return
 	}
 	if out.Rejected {
@@ -159,10 +166,10 @@ func (h *harness) runCase(c Case, ds Decls, wantReject string, nontrivial bool, 
 	// ---- oracle 3: the value of a child does not depend on its siblings --------------------------
 	fo := ds["FINAL_OUTPUT"]
 	if fo.HasObject && len(fo.Object) >= 2 {
-		// up to three children, chosen deterministically
+		// up to two children, chosen deterministically
 		step := 1
-		if len(fo.Object) > 3 {
-			step = len(fo.Object) / 3
+		if len(fo.Object) > 2 {
+			step = (len(fo.Object) + 1) / 2
 		}
 		for ki := 0; ki < len(fo.Object); ki += step {
 			kv := fo.Object[ki]
@@ -295,6 +302,16 @@ func (h *harness) runCase(c Case, ds Decls, wantReject string, nontrivial bool, 
 		}
 	}
 
+	// the model covers float64 for <= 15 significant digits: a longer number next to a float cast
+	// (digit texts concatenated by InnerText) is checked by the Go-side oracles only
+	if strings.Contains(c.Decls, `"float"`) {
+		for _, o := range outs {
+			if longNumRe.MatchString(o) {
+				h.sum.Hist("model:skipped-long-float")
+				return
+			}
+		}
+	}
 	desc := map[string]interface{}{"case": c, "outcomes": outs}
 	h.sum.Sample(desc)
 	clsTerms := make([]string, len(classes))
@@ -430,7 +447,7 @@ func main() {
 	sum := vh.NewSummary("C02", o,
 		"generated schemas (declaration trees: nesting <= 5, templates, twins, xpath_dynamic, all flags, arrays of 1..14 children) x generated XML/JSON/csv/fixed-length documents, each record transformed by Transform.Read and by ParseNode with the transform cache on and off; non-trivial = the schema places >= 2 declarations with equal public content at one cursor (twin or array+object placement), or uses one template at two or more references, or has an array with >= 10 children; distinct by (format, declarations, input)")
 	cw := vh.NewCaseWriter(o, "C02", "Base.Tree Gen.Conv Model.Value Model.XPathFrag Model.Decl Model.Eval", "c02case", "check_case")
-	cw.PerFile = 60
+	cw.PerFile = 50
 	h := &harness{o: o, sum: sum, cw: cw}
 
 	if o.Replay != "" {
@@ -449,7 +466,7 @@ func main() {
 	}
 
 	g := &gen{r: r, allowEmpty: true, allowArrayUnderDyn: true}
-	total := o.Count(700, 30000)
+	total := o.Count(500, 30000)
 	fnames := []string{"xml", "xml", "xml", "xml", "json", "json", "json", "csv", "fixed-length"}
 	for i := 0; i < total; i++ {
 		fname := fnames[r.Pick(len(fnames))]
@@ -505,8 +522,12 @@ func main() {
 		h.runCase(c, ds, defect, g.twins > 0 || twoRefs || g.bigArrays > 0, true)
 	}
 	// ---- second stream: many same-shaped records through javascript_with_context ----
-	for i := 0; i < o.Count(40, 1500); i++ {
+	for i := 0; i < o.Count(30, 1500); i++ {
 		h.jsRecords(r, i)
+	}
+	// ---- third stream: type casts of awkward literals ----
+	for i := 0; i < o.Count(100, 4000); i++ {
+		h.castRecords(r, i)
 	}
 	cw.Flush()
 	sum.CaseFiles = cw.Files
